@@ -50,6 +50,9 @@ def query(ctx, reader, fake, ids, start, end, now, flt, tag):
     try:
         got = list(reader.iter_recording_ids('Op', start_date=start, end_date=end, metadata=flt))
     except Exception as ex:
+        if getattr(fake, 'fail_reads', None) and 'injected' in str(ex):
+            ctx.count('lookups_failing_loudly_on_a_storage_fault')      # an error the caller sees is not a wrong answer
+            return
         ctx.violation('time-window listing raised %s: %s' % (type(ex).__name__, str(ex)[:100]), desc)
         return
     ctx.count('ids_compared', len(ids))
@@ -204,7 +207,27 @@ def run(ctx):
                     if e is not None and e < s:
                         e = s + dt.timedelta(minutes=rng.randrange(0, 3 * 24 * 60))
                     ctx.count('bounds_within_a_second')
+                if e is not None and rng.random() < 0.15:
+                    # the clock of the looking-up host is behind the recording hosts' clocks (or was set back): an explicit end
+                    # bounds the window, whatever "now" is
+                    now = s + dt.timedelta(minutes=rng.randrange(0, 600))
+                    ctx.count('lookup_clock_before_window_end')
                 query(ctx, reader, fake, ids, s, e, now, rng.choice([None, None, {'even': True}]), 'random')
+    # a transient storage fault (throttling, read timeout) while the metadata of one recording is fetched during a filtered lookup:
+    # the lookup may fail, but if it completes it must still be exact
+    from vlib.fakes3 import TransientS3Error, ReadTimeoutError
+    for _ in range(ctx.budget(6, 200)):
+        fake = FakeS3()
+        with fake.installed():
+            inst = sorted(T0 + dt.timedelta(minutes=rng.randrange(0, 3 * 24 * 60)) for _ in range(rng.randrange(3, 12)))
+            ids = build(fake, inst, 'f')
+            reader = fake.cassette('r', key_prefix='f', read_only=True)
+            for at in range(1, 6):
+                fake.fail_reads = {'at': at, 'error': rng.choice([TransientS3Error, ReadTimeoutError])}
+                ctx.count('lookups_with_a_storage_fault')
+                query(ctx, reader, fake, ids, T0 - dt.timedelta(hours=1), rng.choice([None, T0 + dt.timedelta(days=4)]), T0 + dt.timedelta(days=5),
+                      {'even': True}, 'storage fault at metadata read %d' % at)
+            fake.fail_reads = None
     # long windows (weeks to months, across month and year boundaries, December included): sparse recordings over 14 months
     fake = FakeS3()
     with fake.installed():
